@@ -87,6 +87,15 @@ Theorem C14_frame_never_misread :
   forall lz4d max_size osize cd out, decompress lz4d max_size osize cd = Some out -> zlen out = osize.
 Proof. exact frame_never_misread. Qed.
 
+(* TL2 size prefixes (basictl.TL2WriteSize / TL2ParseSize / TL2CalculateSize): for EVERY length an int can hold the
+   prefix reads back as that length and leaves the rest untouched, and its width is 1 / 3 / 9 bytes exactly by the
+   length classes [0,254) / [254, 254+2^16) / the rest - the number the generated writers precompute *)
+Theorem C14_tl2_size_prefix_roundtrip_and_width :
+  forall l r, 0 <= l <= max_int ->
+    read_size (write_size l ++ r) = Some (l, r) /\
+    zlen (write_size l) = (if l <? 254 then 1 else if l <? 254 + 65536 then 3 else 9).
+Proof. intros l r H. split; [exact (read_write_size l r H) | exact (write_size_width l)]. Qed.
+
 (* ---- non-vacuity ---- *)
 (* a metric-like constructor: fields mask, string, dictionary, optional double, optional vector of longs *)
 Definition ex_desc : desc :=
